@@ -736,10 +736,16 @@ def classify(c, impl, model=None):
     if model is None or not same(c, impl, model):
         return None
     cls = model.get("class")
-    if cls is None and any(" M1" in str(m) for m in model.get("stages", [])):
-        return "MixedZoneProvenance"
-    if cls is None and any(" U1" in str(m) for m in model.get("stages", [])):
-        return "UnsoundLeaf"
+    if cls is None and c.get("kind") != "fn":
+        # layout-dependent classes: judged on the first layout in which the answer is wrong
+        hist = c["hist"]
+        for s, m in zip(impl["stages"], model.get("stages", [])):
+            if s["ks"] != ref_select(hist, c["q"], present_at(hist, s["name"])):
+                if " M1" in str(m):
+                    return "MixedZoneProvenance"
+                if " U1" in str(m):
+                    return "UnsoundLeaf"
+                return None
     return None if cls in (None, "IllTyped") else cls
 
 
